@@ -127,6 +127,10 @@ def run(F, R):
     R.rule("C08-R2", "schedule.last_update_time is written (with TimeSource::now()) exactly under check Ok, check Err(ResponseParser|InstallPlan) and ping success; never under a request failure")
     lw = sm.writes(S, *LUT)
     allowed = okE + [(a, b) for v in ("ResponseParser", "InstallPlan") for (a, b, nm) in sm.outcome_edges(S, UCE, v)]
+    for x_ in lw:
+        mg_ = smod.merged_value_guard(S, x_)
+        if mg_:
+            R.condition("merged-classification", mg_, ("C08-R2",))
     if R.floor("C08-R2", "last-contact writes in a check", len(lw), 2):
         r_ = reach(S, [root.entry], cut_edges=allowed)
         bad = [x for x in lw if x in r_]
